@@ -14,26 +14,36 @@ ToSet(q) == {q[k] : k \in 1..Len(q)}
 TokOf(j) == [s |-> j[1], c |-> j[2]]
 ToksOf(q) == [k \in 1..Len(q) |-> TokOf(q[k])]
 
-NoFileExc == {"FileNotFoundError", "IsADirectoryError", "NotADirectoryError"}
-\* logged outcome -> the spec's shape; files as {<<location text, tag>>}
-Pairs(o) == {<<o.files[k][1], o.files[k][2]>> : k \in 1..Len(o.files)}
+\* Outcome classes.  The statement fixes one error type only: RootEscapeError = refused.  Any
+\* operating-system error (the driver logs "OSError" for every subclass) means "no such file".
+NoFileExc == {"OSError"}
+Tags(o) == {o.files[k][2] : k \in 1..Len(o.files)}
+Reals(o) == {o.files[k][1] : k \in 1..Len(o.files)} \ {""}
 ClassOpen(o) == IF o.e = "RootEscapeError" THEN "escape"
                 ELSE IF o.e \in NoFileExc THEN "nofile"
                 ELSE IF o.e = "" THEN "file" ELSE "other:" \o o.e
 ClassHas(o) == IF o.e = "RootEscapeError" THEN "escape"
+               ELSE IF o.e \in NoFileExc THEN "nofile"
                ELSE IF o.e # "" THEN "other:" \o o.e
                ELSE IF o.v THEN "file" ELSE "nofile"
+\* walking something that is no folder may list nothing or say so with an OS error
 ClassWalk(o) == IF o.e = "RootEscapeError" THEN "escape"
+                ELSE IF o.e \in NoFileExc THEN "list"
                 ELSE IF o.e # "" THEN "other:" \o o.e
                 ELSE IF o.trunc THEN "runaway" ELSE "list"
-SpecPairs(b, o) == {<<RelStr(b, f.loc), f.tag>> : f \in o.files}
-Show(b, o) == [k |-> o.k, files |-> SpecPairs(b, o)]
+SpecTags(o) == {f.tag : f \in o.files}
+Show(b, o) == [k |-> o.k, files |-> SpecTags(o)]
+\* which file was reached is told by its content tag (every file of the world has its own)
+Same(class, tags, o) == class = o.k /\ tags = SpecTags(o)
+\* The property forbids reaching outside; it does not forbid refusing a name that stays inside.
+Refused(class, o) == o.k # "escape" /\ class = "escape"
 
 XOf(r) == [base |-> r.b, root |-> RootGiven(r.cfg.form, r.b), chain |-> r.cfg.chain, pfx |-> r.pfx, toks |-> ToksOf(r.toks)]
 
 \* the world's files inside the root, stated without any path resolution
-InsidePairs(base) == {<<RelStr(base, f.loc), f.tag>> : f \in {g \in WorldFiles(base) : g.tag \in InsideTags}}
-AllPairs(r) == Pairs(r.get) \cup Pairs(r.ob) \cup Pairs(r.os) \cup Pairs(r.walk)
+InsideReals(base) == {RelStr(base, f.loc) : f \in {g \in WorldFiles(base) : g.tag \in InsideTags}}
+AllTags(r) == Tags(r.get) \cup Tags(r.ob) \cup Tags(r.os) \cup Tags(r.walk)
+AllReals(r) == Reals(r.get) \cup Reals(r.ob) \cup Reals(r.os) \cup Reals(r.walk)
 
 \* each clause: <<name, holds, expected>>
 ResClauses(r) ==
@@ -45,13 +55,59 @@ ResClauses(r) ==
               /\ (r.cfg.pre # "rel" => Len(r.body) >= 1)
               /\ x.toks = Tokens(r.cfg, r.body, r.b)
               /\ r.pfx = <<"sub">>, "in family">>,
-       <<"has.outcome", ClassHas(r.has) = oo.k, Show(b, oo)>>,
-       <<"get.outcome", ClassOpen(r.get) = go.k /\ Pairs(r.get) = SpecPairs(b, go), Show(b, go)>>,
-       <<"ob.outcome", ClassOpen(r.ob) = oo.k /\ Pairs(r.ob) = SpecPairs(b, oo), Show(b, oo)>>,
-       <<"os.outcome", ClassOpen(r.os) = oo.k /\ Pairs(r.os) = SpecPairs(b, oo), Show(b, oo)>>,
-       <<"walk.outcome", ClassWalk(r.walk) = wo.k /\ Pairs(r.walk) = SpecPairs(b, wo), Show(b, wo)>>,
+       \* a name that leaves the root is refused; a name that stays inside reaches exactly the file
+       \* at that location (or none), or is refused
+       <<"has.outcome", ClassHas(r.has) = oo.k \/ Refused(ClassHas(r.has), oo), Show(b, oo)>>,
+       \* fs[name] then File.open: the File may carry the caller's spelling with backslashes
+       \* rewritten (resolved again, under the same containment rule) or the resolved location
+       <<"get.outcome", \/ Same(ClassOpen(r.get), Tags(r.get), oo) \/ Same(ClassOpen(r.get), Tags(r.get), go)
+                        \/ Refused(ClassOpen(r.get), oo), Show(b, oo)>>,
+       <<"ob.outcome", Same(ClassOpen(r.ob), Tags(r.ob), oo) \/ Refused(ClassOpen(r.ob), oo), Show(b, oo)>>,
+       <<"os.outcome", Same(ClassOpen(r.os), Tags(r.os), oo) \/ Refused(ClassOpen(r.os), oo), Show(b, oo)>>,
+       <<"walk.outcome", Same(ClassWalk(r.walk), Tags(r.walk), wo) \/ Refused(ClassWalk(r.walk), wo), Show(b, wo)>>,
        \* independent of the resolution above: nothing that was read lies outside the root
-       <<"contain", AllPairs(r) \subseteq InsidePairs(r.b), "only files inside the root">> >>
+       <<"contain", AllTags(r) \subseteq InsideTags /\ AllReals(r) \subseteq InsideReals(r.b),
+                    "only files inside the root">> >>
+
+\* ---- unify_path
+FoldOf(r, c) == IF \E k \in 1..Len(r.fold) : r.fold[k][1] = c
+                THEN r.fold[CHOOSE k \in 1..Len(r.fold) : r.fold[k][1] = c][2] ELSE c
+AllFwdToks(toks) == \A k \in 1..Len(toks) : toks[k].s # BS
+UnifyClauses(r) ==
+    LET toks == ToksOf(r.toks)
+        norm == UnifyNorm(toks)
+        want == [k \in 1..Len(norm) |-> FoldOf(r, norm[k])]
+    IN
+    << <<"input.text", PathStr(toks) = r.str, PathStr(toks)>>,
+       <<"input.domain", r.src = "exh" => ToSet(r.body) \subseteq UAlphabet /\ Len(r.body) <= MaxLen
+                          /\ toks = Tokens(r.cfg, r.body, <<>>), "in family">>,
+       \* the property: a path that climbs above the pack root is rejected (by whatever exception)
+       <<"unify.rejects", UnifyClimbs(toks) => r.e # "", "rejected">>,
+       \* ... and whatever is returned is not itself a climbing path
+       <<"unify.result", r.e = "" => ~Climbs(r.rescomps), "a path below the pack root">> >>
+
+Clauses(r) ==
+    LET x == XOf(r) oo == OpenOutcome(x) go == GetOutcome(x) wo == WalkOutcome(x) b == r.b IN
+    << <<"input.text", PathStr(x.toks) = r.str /\ LocStr(x.root) = r.rootstr, PathStr(x.toks)>>,
+       <<"input.domain",
+           r.src = "exh" =>
+              /\ ToSet(r.body) \subseteq Alphabet /\ Len(r.body) <= MaxLen
+              /\ (r.cfg.pre # "rel" => Len(r.body) >= 1)
+              /\ x.toks = Tokens(r.cfg, r.body, r.b)
+              /\ r.pfx = <<"sub">>, "in family">>,
+       \* a name that leaves the root is refused; a name that stays inside reaches exactly the file
+       \* at that location (or none), or is refused
+       <<"has.outcome", ClassHas(r.has) = oo.k \/ Refused(ClassHas(r.has), oo), Show(b, oo)>>,
+       \* fs[name] then File.open: the File may carry the caller's spelling with backslashes
+       \* rewritten (resolved again, under the same containment rule) or the resolved location
+       <<"get.outcome", \/ Same(ClassOpen(r.get), Tags(r.get), oo) \/ Same(ClassOpen(r.get), Tags(r.get), go)
+                        \/ Refused(ClassOpen(r.get), oo), Show(b, oo)>>,
+       <<"ob.outcome", Same(ClassOpen(r.ob), Tags(r.ob), oo) \/ Refused(ClassOpen(r.ob), oo), Show(b, oo)>>,
+       <<"os.outcome", Same(ClassOpen(r.os), Tags(r.os), oo) \/ Refused(ClassOpen(r.os), oo), Show(b, oo)>>,
+       <<"walk.outcome", Same(ClassWalk(r.walk), Tags(r.walk), wo) \/ Refused(ClassWalk(r.walk), wo), Show(b, wo)>>,
+       \* independent of the resolution above: nothing that was read lies outside the root
+       <<"contain", AllTags(r) \subseteq InsideTags /\ AllReals(r) \subseteq InsideReals(r.b),
+                    "only files inside the root">> >>
 
 \* ---- unify_path
 FoldOf(r, c) == IF \E k \in 1..Len(r.fold) : r.fold[k][1] = c
